@@ -214,8 +214,9 @@ def r2(run):
     for d_ in C.delegates_of(facts, C.READ_SYNC):
         # `read_sync_topic(last_id, limit, context_id, topic)`: same leading parameters, the context is still argument 3
         for (b, c) in C.callers_of(facts, d_):
-            if facts.enclosing_fn(b) != C.READ_SYNC and len(c.args) > 3:
-                sites.append((b, c, c.arg(3), "read_sync"))
+            ci = C.param_index(facts, d_, "context_id", 3)      # the delegate may take extra options before the context
+            if facts.enclosing_fn(b) != C.READ_SYNC and len(c.args) > ci:
+                sites.append((b, c, c.arg(ci), "read_sync"))
     for (b, c) in C.callers_of(facts, C.HEAD):
         sites.append((b, c, c.arg(2), "head"))
     # floors by role: the script commands' read_sync / head and the HTTP head route must be visible (Store::new's own scan is incidental)
